@@ -75,6 +75,11 @@ fn write_body(
         } else {
             source.to_writer(&mut enc)?;
         }
+
+        // Write out the trailing partial group and line. `Drop` would do that as well, but it
+        // has to ignore write errors.
+        enc.finish()?;
+        line_wrapper.finish()?;
     }
 
     Ok(())
@@ -123,6 +128,11 @@ impl<W: std::io::Write> Base64Encoder<W> {
             writer,
             &general_purpose::STANDARD,
         ))
+    }
+
+    /// Encodes and writes the remaining buffered input, reporting write errors.
+    pub(crate) fn finish(mut self) -> std::io::Result<()> {
+        self.0.finish().map(|_| ())
     }
 }
 impl<W: std::io::Write> std::io::Write for Base64Encoder<W> {
